@@ -44,6 +44,12 @@ class SimDeadlock(SimAbort):
     """The loop thread blocked itself forever (infinite wait inside a loop handle)."""
 
 
+class SimInfeasible(SimAbort):
+    """The schedule cannot be expressed by a single-threaded simulation (a simulated thread
+    would have to block on a lock held by a caller that is suspended further up the stack).
+    The case is discarded and counted; it is neither a violation nor a harness error."""
+
+
 CURRENT: "Sim | None" = None
 
 
@@ -209,6 +215,46 @@ class SimEvent:
         return self._flag
 
 
+class SimLock:
+    """Stand-in for a non-reentrant `threading.Lock` (used by suspenders).
+
+    All simulated threads share one real thread, so a second acquire can only come from a
+    nested drive while the holder is suspended up the stack: that schedule is infeasible here.
+    While a SimLock is held the simulator runs loop handles only (no other external actor)."""
+
+    def __init__(self):
+        self._held = False
+
+    def acquire(self, blocking=True, timeout=-1):
+        if self._held:
+            if not blocking:
+                return False
+            raise SimInfeasible("lock acquired while held by a suspended simulated thread")
+        self._held = True
+        sim = CURRENT
+        if sim is not None:
+            sim.locks_held += 1
+        return True
+
+    def release(self):
+        if not self._held:
+            raise RuntimeError("release unlocked lock")
+        self._held = False
+        sim = CURRENT
+        if sim is not None:
+            sim.locks_held -= 1
+
+    def locked(self):
+        return self._held
+
+    def __enter__(self):
+        self.acquire()
+        return True
+
+    def __exit__(self, *a):
+        self.release()
+
+
 class SimCFuture(concurrent.futures.Future):
     """`concurrent.futures.Future` whose result()/exception() drive the simulation."""
 
@@ -311,6 +357,7 @@ class Sim:
         self.wall_skew = 0.0  # added to the wall clock (clock jumps)
         self.step_hooks = []  # callables run at every handle boundary; return True if they acted
         self.depth = 0
+        self.locks_held = 0
         self.loop = SimLoop(self)
         self.fault_counts = {}
         self.probes = {}
@@ -382,6 +429,25 @@ class Sim:
 
     def step(self):
         """One scheduling decision.  Returns False if the world is quiescent."""
+        if self.locks_held:
+            # a simulated thread holds a lock inside a nested drive: only the loop thread runs
+            if self.loop.run_one():
+                self.after_handle()
+                return True
+            nx = self._next_ext()
+            nt = self.loop.next_timer()
+            if nx is not None and (nt is None or nx <= nt):
+                # only deadline markers may fire; anything else waits for the lock
+                if self._ext[0].label == "deadline":
+                    e = heapq.heappop(self._ext)
+                    self.now = max(self.now, e.when)
+                    return True
+                if nt is None:
+                    raise SimInfeasible("external event due while a simulated thread holds a lock")
+            if nt is not None:
+                self.now = max(self.now, nt)
+                return True
+            return False
         # 1. injections anchored at handle boundaries
         for hook in list(self.step_hooks):
             if hook(self):
@@ -505,7 +571,7 @@ class installed:
             "loop_to_thread": re_mod._ensure_event_loop_running.loop_to_thread,
             "bs_loop": re_mod._bluesky_event_loop,
         }
-        proxy = _ModuleProxy(_real_threading, Event=SimEvent)
+        proxy = _ModuleProxy(_real_threading, Event=SimEvent, Lock=SimLock)
         re_mod.threading = proxy
         sus_mod.threading = proxy
         asyncio.run_coroutine_threadsafe = sim_run_coroutine_threadsafe
